@@ -267,6 +267,7 @@ def impl_scripts(case):
         env.identity = []
         env.gens = {}
         env.probes = 0
+        env.nge = 0
         env.done = False
         tables = case["tables"]
 
@@ -282,7 +283,7 @@ def impl_scripts(case):
                     env.identity.append("exception %d came back as a different object" % e.n)
                 return ["user", e.n]
             if isinstance(e, GeneratorExit):
-                if env.thrown.get("ge") is not None and env.thrown["ge"] is not e and e.args == ("mine",):
+                if e.args and e.args[0] == "mine" and env.thrown.get(("ge", e.args[1])) is not e:
                     env.identity.append("GeneratorExit came back as a different object")
                 return "GeneratorExit"
             text = str(e)
@@ -318,8 +319,9 @@ def impl_scripts(case):
                     env.thrown[inp[1]] = e
                     out = ["ret", gen.throw(e)]
                 elif inp[0] == "throw_ge":
-                    e = GeneratorExit("mine")
-                    env.thrown["ge"] = e
+                    env.nge += 1
+                    e = GeneratorExit("mine", env.nge)
+                    env.thrown[("ge", env.nge)] = e
                     out = ["ret", gen.throw(e)]
                 else:
                     out = ["ret", gen.close()]
@@ -332,6 +334,9 @@ def impl_scripts(case):
             return out
 
         def do_step(who, st, exc=None):
+            if env.done:
+                # late finalisation (cleanup / garbage collection of a suspended generator): touch nothing
+                return
             if st[0] == "enter":
                 before = cur()
                 a = start_action(action_type="a%d" % st[1])
@@ -373,6 +378,8 @@ def impl_scripts(case):
             state = 0
             bi = ("send", None)
             while True:
+                if env.done:
+                    return None
                 entry = table[state]
                 if bi[0] == "send":
                     seg = entry[0]
@@ -702,13 +709,17 @@ def describe_scripts(case):
 
 
 def shrink_scripts(case):
+    # never remove an "enter": a later "exit" of the same action would become ill-formed
     sc = case["script"]
     for i in range(len(sc) - 1, -1, -1):
-        yield {"tables": case["tables"], "script": sc[:i] + sc[i + 1:]}
+        if sc[i][0] != "enter":
+            yield {"tables": case["tables"], "script": sc[:i] + sc[i + 1:]}
     for g, t in enumerate(case["tables"]):
         for ei, entry in enumerate(t):
             for si, seg in enumerate(entry):
                 for k in range(len(seg["steps"])):
+                    if seg["steps"][k][0] == "enter":
+                        continue
                     t2 = [[dict(s) for s in en] for en in t]
                     t2[ei][si] = {"steps": seg["steps"][:k] + seg["steps"][k + 1:], "end": seg["end"]}
                     yield {"tables": case["tables"][:g] + [t2] + case["tables"][g + 1:], "script": sc}
